@@ -17,7 +17,8 @@ def catalog(prog, tier):
     inf = ((False, False), (True, True), (True, False), (False, True)) if tier == 'thorough' else ((False, False), (True, True))
     return {
         'next': lambda: [V.vc_next(prog, fam, mpt, opt, mi, li) for fam in ('base', 'distance') for mpt in (True, False)
-                         for opt in (True, False) for mi, li in inf],
+                         for opt in (True, False) for mi, li in inf] +
+                        [V.vc_next(prog, 'base', False, opt, False, False, preset_proj=True) for opt in (True, False)],
         'first': lambda: [V.vc_first(prog, fam, mi, li, mpt) for fam in ('base', 'distance') for mpt in (True, False) for mi, li in inf],
         'do_stop': lambda: [V.vc_do_stop(prog, a, b) for a in (False, True) for b in (False, True)],
         'update': lambda: [V.vc_update(prog, c) for c in ('BaseMatching', 'DistanceMatching')],
